@@ -62,6 +62,12 @@ type c15Scen struct {
 	// TightQueue > 0: max_queued_messages = TightQueue, max_inflight 2, inflight_expiry 20 ms - queues overflow all the time,
 	// also those of offline sessions that still hold unacknowledged (soon expired) inflight messages
 	TightQueue int `json:"tight_queue,omitempty"`
+	// Overlap: delivery_mode overlap (one copy per matching subscription, queued while the subscription index is being
+	// walked) instead of the default onlyonce
+	Overlap bool `json:"overlap,omitempty"`
+	// StatsPoll: a goroutine reads the global and per-client statistics continuously (an exporter / admin API polling);
+	// every single read must return within the usual bound
+	StatsPoll bool `json:"stats_poll,omitempty"`
 }
 
 // c15Pipelined counts DISCONNECTs with packets behind them (label only).
@@ -75,7 +81,7 @@ func genC15(t *rapid.T) c15Scen {
 		StopAt: rapid.SampledFrom([]int{30, 60, 100, 100}).Draw(t, "stopat"), MaxProcs: rapid.SampledFrom([]int{2, 4, 16}).Draw(t, "procs"),
 		Stalled:       rapid.SampledFrom([]int{0, 0, 0, 4, 5}).Draw(t, "stalled"),
 		AcceptDelayUs: rapid.SampledFrom([]int{0, 0, 200, 2000}).Draw(t, "accept_delay"), LateDials: rapid.SampledFrom([]int{0, 3, 8}).Draw(t, "late_dials"),
-		TightQueue: rapid.SampledFrom([]int{0, 0, 3, 4}).Draw(t, "tight_queue")}
+		TightQueue: rapid.SampledFrom([]int{0, 0, 3, 4}).Draw(t, "tight_queue"), Overlap: rapid.Bool().Draw(t, "overlap"), StatsPoll: rapid.Bool().Draw(t, "stats_poll")}
 	n := rapid.IntRange(4, 12).Draw(t, "nclients")
 	for i := 0; i < n; i++ {
 		cl := c15Client{ID: rapid.IntRange(0, 4).Draw(t, "id"), V: rapid.SampledFrom([]int{4, 5}).Draw(t, "v"), Clean: rapid.Bool().Draw(t, "clean"),
@@ -124,6 +130,10 @@ func runC15(s c15Scen, c *ev.Case) *ev.Violation {
 	cfg := fixture.BaseConfig()
 	cfg.MQTT.MaxQueuedMsg = 20
 	cfg.MQTT.MaxInflight = 5
+	if s.Overlap {
+		cfg.MQTT.DeliveryMode = "overlap"
+		c.Label("delivery_mode_overlap")
+	}
 	if s.TightQueue > 0 {
 		cfg.MQTT.MaxQueuedMsg = s.TightQueue
 		cfg.MQTT.MaxInflight = 2
@@ -393,6 +403,28 @@ func runC15(s c15Scen, c *ev.Case) *ev.Violation {
 			cp2 := &mw.Packet{Type: mw.CONNECT, ProtoName: name, ProtoLevel: lvl, ClientID: "stalled", CleanStart: false, Props: cp.Props}
 			if cl2.Send(cp2) == nil {
 				answered(cl2, "CONNECT taking over a stalled client", func(p *mw.Packet) bool { return p.Type == mw.CONNACK })
+			}
+		}()
+	}
+	if s.StatsPoll {
+		c.Label("statistics_polled")
+		wg.Add(1)
+		go func() {
+			defer wg.Done()
+			for k := 0; viol.Load() == nil && !stopping.Load(); k++ {
+				done := make(chan struct{})
+				go func() {
+					defer close(done)
+					_ = b.Srv.StatsManager().GetGlobalStats()
+					_, _ = b.Srv.StatsManager().GetClientStats(fmt.Sprintf("id%d", k%5))
+				}()
+				select {
+				case <-done:
+				case <-time.After(c15Wait):
+					report(ev.Violf("C15.api-blocked", "reading the statistics did not return within %v\n%s", c15Wait, brokerGoroutines()).With("api", "stats_poll"))
+					return
+				}
+				time.Sleep(50 * time.Microsecond)
 			}
 		}()
 	}
